@@ -50,6 +50,7 @@ SubP(i) == [t |-> "subp", pname |-> SubPaths[i].root,
             p |-> [val |-> IF SubPaths[i].root \in DOMAIN Roots THEN Roots[SubPaths[i].root] ELSE Nil,
                    rootArgs |-> SubPaths[i].rootArgs, rootCall |-> SubPaths[i].rootCall, steps |-> SubPaths[i].steps]]
 
+CONSTANT Deep      \* (thorough tier) also plain paths of length 3
 VARIABLES root, rootCall, rootArgs, steps, go
 Init ==
   /\ go = FALSE
@@ -62,6 +63,10 @@ Init ==
                 \/ \E a \in 1..Len(PlainSteps), b \in 1..Len(PlainSteps) :
                      /\ PlainSteps[a].t # "sub"          \* the grammar admits a subscript only as the last step of a name
                      /\ steps = <<NoCall(PlainSteps[a]), NoCall(PlainSteps[b])>>
+                \/ /\ Deep
+                   /\ \E a \in 1..Len(PlainSteps), b \in 1..Len(PlainSteps), c \in 1..Len(PlainSteps) :
+                        /\ PlainSteps[a].t # "sub" /\ PlainSteps[b].t # "sub"
+                        /\ steps = <<NoCall(PlainSteps[a]), NoCall(PlainSteps[b]), NoCall(PlainSteps[c])>>
           \/ \* a subscript that is a name itself, directly on the root or after one step
              /\ rootCall = FALSE /\ rootArgs = <<>>
              /\ \E q \in 1..Len(SubPaths) :
